@@ -1017,7 +1017,7 @@ class Builder:
                 h = ops[0][r]
                 left = next((o[r] for o in ops if o[r][0] == 'f'), None)
                 if cls == 'keep':
-                    res.append(h if h[0] == 'f' else bare)
+                    res.append(h if h[0] in 'fp' else bare)
                 elif cls == 'scalar0':
                     res.append(('s' if nd == 0 else h) if h[0] == 'f' else bare)
                 elif cls == 'func':
@@ -3082,6 +3082,11 @@ DIRECTED = [
     {'grids': G4, 'final': [0, 1, 2], 'stmts': [['assign', 0, _f(0, [1, 2, 3, 4])], ['assign', 1, ['shaped', ['var', 0], 0]],
                                                ['assign', 2, ['bin', 'mul', 0, ['red', 'sum', 'all', 0, ['var', 0]], ['lit', [4], 'r', [1.0, 2.0, 0.5, 1.0], []]]],
                                                ['assign', 3, ['bin', 'add', 0, ['shaped', ['var', 2], 0], ['scal', 'r', 1.0, 0.0, 0]]]]},
+    # np.where of scalars is a 0-d *array* (not a scalar) under every style, and stays one through ndarray methods
+    {'grids': G4, 'final': [0, 1, 2, 3, 4], 'stmts': [['assign', 0, _f(0, [1, 2, 3, 4])], ['assign', 1, ['app1', 'amin', ['all'], 3, ['var', 0]]],
+                                                     ['assign', 2, ['bin', 'ne', 5, ['var', 1], ['scal', 'r', 0.875, 0.0, 1]]],
+                                                     ['assign', 3, ['app3', 'where', 1, ['var', 2], ['var', 1], ['var', 1]]],
+                                                     ['assign', 4, ['app1', 'as', ['b'], 9, ['var', 3]]]]},
     # the wrapper-specific paths: tuple-valued ufuncs, where=, in-place methods, conversions
     {'grids': G4, 'final': [0], 'stmts': [['assign', 0, _f(0, [1.5, -2, 3, 4])], ['assign', 1, ['ext', 'divmod', [['var', 0], ['var', 0]]]]]},
     {'grids': G4, 'final': [0], 'stmts': [['assign', 0, _f(0, [1.5, -2, 3, 4])], ['assign', 1, ['ext', 'add_where_outfield', [['var', 0], ['var', 0]]]]]},
